@@ -17,6 +17,33 @@ Definition slash : byte := 47%N.
 (* filepath.Join(dir, name) as filepath.Walk builds the paths it hands to the callback *)
 Definition join_str (dir : bytes) (nm : name) : bytes := dir ++ slash :: nm.
 
+(* strings.Split(s, "/") *)
+Fixpoint split_slash_aux (cur : bytes) (s : bytes) : list bytes :=
+  match s with
+  | [] => [rev cur]
+  | c :: r => if N.eqb c slash then rev cur :: split_slash_aux [] r else split_slash_aux (c :: cur) r
+  end.
+Definition split_slash (s : bytes) : list bytes := split_slash_aux [] s.
+
+(* ---------- symbolic links: the LAST component of a path is followed by Stat / Open, as os.Stat and
+   ioutil.ReadFile do (a chunk's canonical file may be a link to the object kept elsewhere).  Intermediate
+   components are not (Base/FS.resolve); a target is resolved from the link's directory, absolute targets
+   from the model's root; at most 8 hops (ELOOP beyond). ---------- *)
+Definition dot : bytes := [46%N].
+Definition dotdot : bytes := [46%N; 46%N].
+Fixpoint apply_components (cur : path) (cs : list bytes) : option path :=
+  match cs with
+  | [] => Some cur
+  | c :: r =>
+      if bytes_eqb c [] || bytes_eqb c dot then apply_components cur r
+      else if bytes_eqb c dotdot then
+        match cur with [] => None | _ => apply_components (removelast cur) r end
+      else apply_components (cur ++ [c]) r
+  end.
+Definition link_target (p : path) (t : bytes) : option path :=
+  apply_components (match t with c :: _ => if N.eqb c slash then [] else removelast p | [] => removelast p end)
+                   (split_slash t).
+
 (* ---------- store configuration: LocalStore{Base, Opt.Uncompressed, Opt.SkipVerify} ---------- *)
 Record store := mkStore { st_base : path; st_unc : bool; st_skip : bool }.
 
@@ -64,11 +91,26 @@ Definition http_id_from_path (compressed : bool) (p : bytes) : option id :=
 Definition probe (p : path) (s : node) : res ent :=
   match resolve p s with Ok n => Ok (ent_of n) | Err e => Err e end.
 
-(* ioutil.ReadFile as GetChunk uses it: None = os.IsNotExist(err); any other error is IGNORED by
-   GetChunk and leaves b empty (a directory, or a non-directory on the way).  Symlinks are not
-   followed by this model (stores with symlinks are out of scope). *)
-Definition read_file (p : path) (s : node) : option bytes :=
+(* os.Stat / open: like [probe], the final link followed *)
+Fixpoint probe_follow (fuel : nat) (p : path) (s : node) : res ent :=
   match probe p s with
+  | Ok (ELink _ t) =>
+      match fuel with
+      | O => Err EINVAL
+      | S f => match link_target p t with Some q => probe_follow f q s | None => Err ENOENT end
+      end
+  | r => r
+  end.
+Definition probe_f : path -> node -> res ent := probe_follow 8.
+
+(* symlink(2) *)
+Definition mk_symlink (p : path) (target : bytes) : node -> res node :=
+  upd p (fun o => match o with None => Ok (Some (Symlink meta0 target)) | Some _ => Err EEXIST end).
+
+(* ioutil.ReadFile as GetChunk uses it: None = os.IsNotExist(err); any other error is IGNORED by
+   GetChunk and leaves b empty (a directory, or a non-directory on the way). *)
+Definition read_file (p : path) (s : node) : option bytes :=
+  match probe_f p s with
   | Ok (EFile _ b) => Some b
   | Err ENOENT => None
   | _ => Some []
@@ -124,7 +166,7 @@ Section Store.
 
   (* LocalStore.HasChunk: os.Stat *)
   Definition has_chunk (st : store) (i : id) (s : node) : has_res :=
-    match probe (snd (name_from_id st i)) s with
+    match probe_f (snd (name_from_id st i)) s with
     | Ok _ => HasYes
     | Err ENOENT => HasNo
     | Err _ => HasErr
@@ -133,7 +175,7 @@ Section Store.
   (* LocalStore.RemoveChunk: ChunkMissing when Stat fails for whatever reason, else os.Remove *)
   Definition remove_chunk (st : store) (i : id) (s : node) : rm_res :=
     let p := snd (name_from_id st i) in
-    match probe p s with
+    match probe_f p s with
     | Err _ => RmMissing
     | Ok _ => match remove p s with Ok s' => RmOk s' | Err e => RmErr e end
     end.
